@@ -16,6 +16,7 @@ import (
 	"time"
 
 	"github.com/brutella/hc/crypto"
+	"github.com/brutella/hc/hap"
 
 	"verif/harness/hcx"
 	"verif/harness/script"
@@ -283,12 +284,29 @@ func checkConn(s *stream, al altered, rnd *rand.Rand) {
 	sc := script.New(nil)
 	sc.KeepReads = false
 	ctx := hcx.NewContext()
-	hc, err := hcx.ServerConn(sc, ctx, s.secret)
-	if err != nil {
-		run.Inconclusive("ServerConn: " + err.Error())
-		return
+	var hc *hap.Connection
+	late := s.advance == 0 && rnd.Intn(4) == 0
+	if late {
+		// the adversary is there from the very first byte: the session keys are installed while a read that began in the
+		// plaintext phase is still pending (pair-verify completes in the handler while net/http's background read waits), the
+		// plaintext M4 is written only afterwards; what arrives in that window is ciphertext like everything after it
+		hc = hap.NewConnection(sc, ctx)
+		cr, cerr := crypto.NewSecureSessionFromSharedKey(s.secret)
+		if cerr != nil {
+			run.Inconclusive("session constructor: " + cerr.Error())
+			return
+		}
+		sc.OnData = func() { ctx.GetSessionForConnection(sc).SetCryptographer(cr) }
+		run.Count("connection_cases_with_keys_installed_during_a_pending_read", 1)
+	} else {
+		var err error
+		hc, err = hcx.ServerConn(sc, ctx, s.secret)
+		if err != nil {
+			run.Inconclusive("ServerConn: " + err.Error())
+			return
+		}
+		hc.Write([]byte("HTTP/1.1 200 OK\r\nContent-Length: 0\r\n\r\n")) // the plaintext M4, as after pair-verify
 	}
-	hc.Write([]byte("HTTP/1.1 200 OK\r\nContent-Length: 0\r\n\r\n")) // the plaintext M4, as after pair-verify
 	buf := make([]byte, 4096)
 	// advance: each preface frame delivered separately and read out
 	for i := 0; i < s.advance; i++ {
@@ -307,6 +325,9 @@ func checkConn(s *stream, al altered, rnd *rand.Rand) {
 	for calls := 0; calls < 20000 && idle < 3; calls++ {
 		n, err := hc.Read(buf)
 		released = append(released, buf[:n]...)
+		if late && calls == 0 {
+			hc.Write([]byte("HTTP/1.1 200 OK\r\nContent-Length: 0\r\n\r\n")) // M4 goes out after the first read has returned
+		}
 		if err != nil {
 			if ne, ok := err.(net.Error); ok && ne.Timeout() {
 				if sc.Exhausted() {
@@ -618,6 +639,7 @@ func main() {
 	farReplays(r, rnd)
 	r.Floor("direct_cases", int(r.Counter("direct_cases")), 5000)
 	r.Floor("connection_cases", int(r.Counter("connection_cases")), 200)
+	r.Floor("connection_cases_with_keys_installed_during_a_pending_read", int(r.Counter("connection_cases_with_keys_installed_during_a_pending_read")), 40)
 	r.Floor("connection_cases_idle_periods_inside_the_stream", int(r.Counter("connection_cases_idle_periods_inside_the_stream")), 100)
 	r.Floor("errors_reported", int(r.Counter("errors_reported")), 1000)
 	r.Finish()
